@@ -66,6 +66,9 @@ def expected_dim(w, u, _depth=0):
     return tuple(acc)
 
 
+from ..world import flat as _flat  # noqa: E402
+
+
 def safe_ustr(w, u):
     try:
         return w.ustr(u)
@@ -77,6 +80,8 @@ def table_violations(w, extra=()):
     """The invariant I(world): every interned unit (and every unit in `extra`)."""
     bad = []
     seen = set()
+    nf = len(w.m.Number.exponents)
+    known_dims = {id(d) for d in _flat(w.m.Dimension._known)}
     for u in itertools.chain(list(w.m.Unit._known.values()), extra):
         if id(u) in seen:
             continue
@@ -91,6 +96,11 @@ def table_violations(w, extra=()):
             continue
         if exp != got:
             bad.append((name, got, exp))
+            continue
+        # ... and that dimension is THE interned object for those exponents, as wide as the
+        # current set of fundamental dimensions (a phantom twin compares equal tuple-wise)
+        if len(got) != nf or id(u.dimension) not in known_dims:
+            bad.append((name, got, tuple(list(exp) + [0] * (nf - len(exp)))))
     return bad
 
 
@@ -256,6 +266,10 @@ class C01Model(Model):
                 for j in range(n):
                     evs.append(["q_mul", i, j])
                     evs.append(["q_div", i, j])
+        if not getattr(ctx, "defined", False):
+            # a user-defined fundamental dimension widens every exponent tuple in place: whatever
+            # was memoised before must not come back one slot short
+            evs.append(["define_dim"])
         return evs
 
     def apply(self, ctx, ev):
@@ -273,6 +287,10 @@ class C01Model(Model):
                 res = [ws[ev[1]].root(ev[2])]
             elif op == "prefix":
                 res = [ctx.kilo * ws[ev[1]]]
+            elif op == "define_dim":
+                ctx.defined = True
+                ctx.w.m.Dimension.define("verif c01 dimension", "Vc1")
+                res = []
             elif op == "obs":
                 res = OBSERVERS[ev[1]](ctx.w, ws[ev[2]])
             elif op == "conv":
